@@ -98,7 +98,7 @@ def run(tier, seed):
     ev.assumptions = ["pre-hashed RSA mode is driven with digests of exactly RLC_MD_LEN bytes (its domain)",
                       "hash-to-curve output of cp_bls_ver is bound from the execution (input must equal the message); its correctness is C13",
                       "MD_MAP = SHA-256 (pinned); EC_CUR = PRIME",
-                      "RSA moduli of 1024, 1023, 522 and 521 bits (BN_PRECI = 1024 bounds the size in the pinned build)"]
+                      "RSA moduli of 1024, 1023, 522 and 521 bits, PKCS#1 v1.5 also 488 bits (BN_PRECI = 1024 bounds the size in the pinned build)"]
     # 1. design level
     core.run_models(ev, MC_RUNS(quick))
     from concurrent.futures import ThreadPoolExecutor
@@ -119,7 +119,8 @@ def run(tier, seed):
     _count(ev, "std256", events)
     if not quick:
         for cfg, pad in (("rsapd-pkcs1", "pkcs1"), ("rsapd-basic", "basic")):
-            cases = gen_sig.rsa_cases(rng, tier, pad, keys)
+            # PKCS#1 v1.5 additionally with k = tLen + 10 = 61 bytes: one byte too short for the standard's encoder
+            cases = gen_sig.rsa_cases(rng, tier, pad, keys + ([(488, "07", True)] if pad == "pkcs1" else []))
             events, _ = conf.run(cfg, cfg, "sig", ["drv_sig.c"], cases, SPEC, wraps=WRAPS, nontrivial=nontrivial,
                                  min_per_shard=20, tlc_timeout=3000)
             _count(ev, cfg, events)
